@@ -275,6 +275,48 @@ def decide_site(ctx, o, fixed_env=None):
     v = panic_node([o])
     if v[0] == "c":
         return (True, "unreachable") if not v[1] else (False, {})
+    # uninterpreted calls (a ranking left opaque, a contract) stand for arbitrary values of their type
+    from ..evals import substitute
+    opq = {}
+    for x in walk(v):
+        if x[0] == "call" and (x[1].startswith("fn:") or x[1].startswith("contract:")) and ty_of(x) in INT_BITS:
+            opq.setdefault(id(x), (x, atom("$call%d" % len(opq), ty_of(x))))
+    if opq:
+        v = substitute(v, lambda nd: opq[id(nd)][1] if id(nd) in opq else None)
+    # comparisons only: the truth of the failure condition depends on the order type of its atoms among the
+    # constants they are compared with — every order type enumerated
+    r_ = decide_by_order_types(ctx, v, fixed_env)
+    if r_ is not None:
+        return r_
+    # the same after abstracting every non-constant operand of an ordering/equality comparison by a fresh value (an
+    # over-approximation: it can only prove the site safe), with the path condition and, failing that, without it
+    memo_ = {}
+
+    def unsat(node, depth=0):
+        """sound, incomplete: True only when `node` has no satisfying assignment"""
+        if id(node) in memo_:
+            return memo_[id(node)]
+        r = False
+        if node[0] == "c":
+            r = not node[1]
+        elif depth <= 40:
+            va = abstract_operands(node)
+            d_ = decide_by_order_types(ctx, va, fixed_env) if va is not None else None
+            if d_ is not None and d_[0] is True:
+                r = True
+            else:
+                djs = flat_or_(node, [])
+                if len(djs) > 1:
+                    r = all(unsat(d, depth + 1) for d in djs)          # a disjunction: every disjunct
+                else:
+                    cjs = flat_and(node, [])
+                    if len(cjs) > 1:
+                        r = any(unsat(c, depth + 1) for c in cjs)      # a conjunction: some conjunct alone
+        memo_[id(node)] = r
+        return r
+    for node in (v, mk_not_(o.cond)):
+        if unsat(node):
+            return True, "order types of abstracted comparison operands, by cases over the merged paths"
     # carry-free addition
     c = o.cond
     if c[0] == "un" and c[1] == "Not" and c[2][0] == "bin" and c[2][1] == "AddOvf":
@@ -355,6 +397,107 @@ def decide_site(ctx, o, fixed_env=None):
                     ctx.rep.evals(len(vals))
                     return True, "the path fixes the population count of %s to %d: all %d such values" % (nm, b_[1], len(vals))
     return None, "no exact decision procedure applies"
+
+
+def flat_or_(x, out):
+    if x[0] == "bin" and x[1] == "BitOr" and x[4] == "bool":
+        flat_or_(x[2], out)
+        flat_or_(x[3], out)
+    elif x[0] == "ite" and ty_of(x) == "bool" and x[2][0] == "c" and x[2][1]:
+        # ite(c, true, e) = c or e
+        flat_or_(x[1], out)
+        flat_or_(x[3], out)
+    else:
+        out.append(x)
+    return out
+
+
+def mk_not_(x):
+    from ..sym import mk_not
+    return mk_not(x)
+
+
+def abstract_operands(v):
+    """Replace every maximal non-constant, non-atom operand of a comparison by a fresh atom of its type."""
+    from ..evals import substitute
+    from ..pdb import INT_BITS
+    from ..evals import children
+    ops = {}
+    seen = set()
+    stack = [v]
+    while stack:                       # top-down: what lies inside an abstracted operand is not looked at
+        x = stack.pop()
+        if id(x) in seen or id(x) in ops:
+            continue
+        seen.add(id(x))
+        if x[0] == "bin" and x[1] in ("Eq", "Ne", "Lt", "Le", "Gt", "Ge"):
+            for o_ in (x[2], x[3]):
+                if o_[0] not in ("c", "atom") and ty_of(o_) in INT_BITS:
+                    if id(o_) not in ops:
+                        ops[id(o_)] = (o_, atom("$op%d" % len(ops), ty_of(o_)))
+                else:
+                    stack.append(o_)
+            continue
+        stack.extend(children(x))
+    if not ops or len(ops) > 4:
+        return None
+    return substitute(v, lambda nd: ops[id(nd)][1] if id(nd) in ops else None)
+
+
+def decide_by_order_types(ctx, v, fixed_env):
+    from ..pdb import INT_BITS, is_signed
+    from ..evals import children
+    import itertools
+    pdb = ctx.pdb
+    atoms_ = {}
+    consts = set()
+    parents = {}
+    for x in walk(v):
+        if x[0] == "atom":
+            atoms_[x[1]] = x
+        for ch in children(x):
+            parents.setdefault(id(ch), []).append(x)
+    free = [a for nm, a in atoms_.items() if nm not in fixed_env]
+    if not free or len(free) > 4 or any(a[2] not in INT_BITS for a in free):
+        return None
+    for a in free:
+        for p_ in parents.get(id(a), []):
+            if p_[0] == "bin" and p_[1] in ("Eq", "Ne", "Lt", "Le", "Gt", "Ge"):
+                o_ = p_[3] if p_[2] is a else p_[2]
+                if o_[0] == "c" and isinstance(o_[1], int):
+                    consts.add(o_[1])
+                    continue
+                if o_[0] == "atom":
+                    continue
+            return None
+    n = len(free)
+    pool = set()
+    tys = {a[2] for a in free}
+    lo = min((-(1 << (INT_BITS[t] - 1))) if is_signed(t) else 0 for t in tys)
+    hi = min(((1 << (INT_BITS[t] - 1)) - 1) if is_signed(t) else ((1 << INT_BITS[t]) - 1) for t in tys)
+    marks = sorted(consts | {lo, hi})
+    for m in marks:
+        for d in range(-n, n + 1):
+            if lo <= m + d <= hi:
+                pool.add(m + d)
+    for m1, m2 in zip(marks, marks[1:]):
+        mid = (m1 + m2) // 2
+        for d in range(n):
+            if m1 < mid + d < m2:
+                pool.add(mid + d)
+    pool = sorted(pool)
+    if len(pool) ** n > 60000:
+        return None
+    for combo in itertools.product(pool, repeat=n):
+        env = dict(fixed_env)
+        env.update({a[1]: val for a, val in zip(free, combo)})
+        try:
+            if cval(evaluate(pdb, v, env)):
+                return False, env
+        except (IndexError, ZeroDivisionError, KeyError):
+            return False, env
+    ctx.rep.evals(len(pool) ** n)
+    return True, "every order type of %d value(s) among %d constants" % (n, len(consts))
 
 
 def eval_bit(b, asg):
